@@ -186,13 +186,18 @@ class Harness:
         self.start()
 
     def start(self):
-        pre = None
-        if self.stack_kb:
-            import resource
+        kb = self.stack_kb
 
-            kb = self.stack_kb
-
-            def pre():
+        def pre():
+            # a harness that loops for ever (that is what some checks are looking for) must not outlive an orchestrator that
+            # is killed from outside: ask the kernel to kill the child when its parent dies (PR_SET_PDEATHSIG = 1, SIGKILL)
+            try:
+                import ctypes
+                ctypes.CDLL("libc.so.6", use_errno=True).prctl(1, 9, 0, 0, 0)
+            except Exception:
+                pass
+            if kb:
+                import resource
                 resource.setrlimit(resource.RLIMIT_STACK, (kb * 1024, kb * 1024))
         self.p = subprocess.Popen(self.wrapper + [self.binary], stdin=subprocess.PIPE, stdout=subprocess.PIPE,
                                   stderr=subprocess.PIPE, preexec_fn=pre)
@@ -433,6 +438,12 @@ def finish(res, level="exploration", min_distinct=2):
 # --------------------------------------------------------------------------- parallel map
 def _worker_init(fn_init, args):
     global _WSTATE
+    try:
+        # a worker (and, through it, its harness processes) must not outlive an orchestrator that is killed from outside
+        import ctypes
+        ctypes.CDLL("libc.so.6", use_errno=True).prctl(1, 9, 0, 0, 0)
+    except Exception:
+        pass
     _WSTATE = fn_init(*args) if fn_init else None
 
 
